@@ -106,3 +106,13 @@ def set_image(detector, level=0.0, gain=1.0, **kwargs):
     import numpy as np
     probe(detector, level=level, gain=gain, **kwargs)
     detector.image.array = np.full(detector.geometry.shape, int(round(level * gain)), dtype=np.uint16)
+
+
+CALLS = {"n": 0, "fail_at": None}
+
+
+def fail_at_call(detector, **kwargs):
+    """Raises ProbeError exactly once, on call number CALLS['fail_at'] (faults inside an optimiser's evolve round)."""
+    CALLS["n"] += 1
+    if CALLS["n"] == CALLS["fail_at"]:
+        raise ProbeError(f"probe failure at call {CALLS['n']}")
